@@ -98,6 +98,7 @@ inline int error_code(const std::string &msg)
 // the components (each in its own translation unit; stubs.cpp stands in for one that does not compile)
 void do_graph(Toks &tk, std::ostream &os);
 void do_upd(Toks &tk, std::ostream &os);
+void do_upd_public(Toks &tk, std::ostream &os);      // upd_public.cpp: the same cases through the public entry point (composed sweep only)
 void do_layout(Toks &tk, std::ostream &os);
 void do_resize(Toks &tk, std::ostream &os);
 void do_wmem(Toks &tk, std::ostream &os);
